@@ -18,6 +18,7 @@ import (
 	"strconv"
 	"strings"
 	"sync"
+	"sync/atomic"
 )
 
 func init() {
@@ -98,6 +99,23 @@ func x06WriteDump(dir string, t *x06Tax, rng *rand.Rand) error {
 	return nil
 }
 
+// x06Run runs a binary; a run that fails is repeated once: a crash that does not repeat on the same input is not a
+// statement about the taxonomy (it belongs to the properties of the readers and writers) and is only counted.
+var x06Transient int64
+
+func x06Run(bin string, args []string, dir string) (stdout []byte, rc int, stderr string) {
+	stdout, rc, stderr = runBinary(bin, args, dir)
+	if rc != 0 {
+		o2, rc2, e2 := runBinary(bin, args, dir)
+		if rc2 == 0 {
+			atomic.AddInt64(&x06Transient, 1)
+			fmt.Fprintf(os.Stderr, "x06: %s %v failed once (exit %d) and succeeded when repeated: %s\n", filepath.Base(bin), args, rc, x06Trunc(stderr))
+			return o2, rc2, e2
+		}
+	}
+	return
+}
+
 // x06Arg is the command-line spelling of a pattern (the specification's Arg).
 func x06Arg(p x06Pat) string {
 	s := p.Lit
@@ -148,7 +166,7 @@ func x06Lines(out []byte) []string {
 
 func x06RunFind(bindir, dir string, q *x06Query, args []string) (lines []string, rc int, stderr string, cmdline []string) {
 	cmdline = x06FindArgs(dir, q, args)
-	out, rc, stderr := runBinary(filepath.Join(bindir, "obifind"), cmdline, dir)
+	out, rc, stderr := x06Run(filepath.Join(bindir, "obifind"), cmdline, dir)
 	return x06Lines(out), rc, stderr, cmdline
 }
 
@@ -193,7 +211,7 @@ func x06RunAnnot(bindir, dir, tag string, o *x06Opts, recs []x06Rec) (obs []x06O
 	os.WriteFile(in, fb.Bytes(), 0o644)
 	defer os.Remove(in)
 	cmdline = x06AnnotArgs(dir, o, in)
-	out, rc, stderr := runBinary(filepath.Join(bindir, "obiannotate"), cmdline, dir)
+	out, rc, stderr := x06Run(filepath.Join(bindir, "obiannotate"), cmdline, dir)
 	obs = make([]x06Obs, len(recs))
 	for i := range obs {
 		obs[i] = x06Obs{Ik: []string{}, Iv: []int{}, Sk: []string{}, Sv: []string{}}
